@@ -12,6 +12,8 @@ UNIT_SAFETY = {
     "scan": "C19",
     "cbtime": "C20",
     "fifo": "C07",
+    "padmap": "C09",
+    "wiremap": "C09",
 }
 
 PROPS = {
@@ -71,7 +73,7 @@ PROPS = {
     },
     "C08": {
         "title": "Channel identity is unambiguous",
-        "units": ["adc", "chunk", "pwb", "ring"],
+        "units": ["adc", "chunk", "pwb", "ring", "padmap", "wiremap"],
         "kani_quick": ["small_ids_complete", "alpha16_mac_complete", "pwb_readout_complete"],
         "kani_thorough": ["pwb_mac_complete", "pwb_device_complete", "name_adc16_4", "name_adc32_4", "name_padwing_4", "name_fixed_4",
                           "name_main_event_4"],
@@ -80,7 +82,7 @@ PROPS = {
     },
     "C09": {
         "title": "Assembling and reconstructing never crashes (integer panic sites only)",
-        "units": ["ring"],
+        "units": ["ring", "padmap", "wiremap"],
         "kani_quick": ["cal_wire_complete", "cal_pad_complete", "a_entry_complete"],
         "level": "proof",
     },
